@@ -26,7 +26,7 @@ TRUSTED = ["correspondence harness (exact rational conversion of floats, norm-wi
 TOL = "(q 1 1000000000)"
 REL = qlit(1e-9)
 
-SHAPES = [(6, 5, 7), (7, 6, 5), (5, 7, 6), (8, 6, 6)]
+SHAPES = [(5, 4, 6), (4, 6, 5), (6, 5, 4), (5, 5, 5)]
 SP = 1e-7
 
 
@@ -100,22 +100,22 @@ def gen_scene(rng, idx, nonuni=False):
         mats, name = rdict(rng, kinds)
         o = {"kind": shp, "mats": mats, "mat_name": name, "order": order}
         if shp == "sphere":
-            n = [rng.choice([3, 4] if nonuni else [3, 4, 5]) for _ in range(3)]
+            n = [rng.choice([k for k in ([3, 4] if nonuni else [3, 4, 5]) if k <= s]) for s in shape]
             r = [0.5 * k * SP for k in n]
             o.update(radius=r[0], radius_y=r[1], radius_z=r[2])
             if rng.random() < 0.3:
-                n = [n[0]] * 3
-                o.update(radius_y=None, radius_z=None)
+                n = [min(n)] * 3
+                o.update(radius=0.5 * n[0] * SP, radius_y=None, radius_z=None)
         elif shp == "cyl":
             ax = rng.randrange(3)
-            d = rng.choice([3, 4] if nonuni else [3, 4, 5])
+            d = rng.choice([k for k in ([3, 4] if nonuni else [3, 4, 5]) if k <= min(shape[a] for a in range(3) if a != ax)])
             n = [d, d, d]
             n[ax] = rng.randrange(1, min(5, shape[ax]) + 1)
             o.update(radius=0.5 * d * SP, axis=ax, height=n[ax])
         else:
             ax = rng.randrange(3)
-            w, h = rng.choice([3, 4, 5]), rng.choice([3, 4])
             tr = [a for a in range(3) if a != ax]
+            w, h = rng.choice([k for k in (3, 4, 5) if k <= shape[tr[0]]]), rng.choice([k for k in (3, 4) if k <= shape[tr[1]]])
             hw, hh = 0.5 * w * SP, 0.5 * h * SP
             verts = rng.choice([
                 [[-hw, -hh], [hw, -hh], [0.13 * hw, hh]],
@@ -125,17 +125,14 @@ def gen_scene(rng, idx, nonuni=False):
             n[tr[0]], n[tr[1]] = w, h
             n[ax] = rng.randrange(1, min(4, shape[ax]) + 1)
             o.update(axis=ax, height=n[ax], vertices=verts)
-        if nonuni:
-            # on stretched grids the cell count of a metric size depends on the position: place at the origin corner region
-            o["lo"] = [rng.randrange(0, 2) for _ in range(3)]
-        else:
-            o["lo"] = [rng.randrange(0, s - k + 1) for s, k in zip(shape, n)]
+        # (on stretched grids every cell is at least SP wide, so a metric size of k*SP needs at most k cells)
+        o["lo"] = [rng.randrange(0, s - k + 1) for s, k in zip(shape, n)]
         case["objs"].append(o)
     return case
 
 
 def gen_cases(ctx):
-    n = ctx.pick(14, 90)
+    n = ctx.pick(12, 90)
     cases = []
     for p in sorted((core.VERIF / "harness" / "corpus" / PID).glob("*.json")) if (core.VERIF / "harness" / "corpus" / PID).exists() else []:
         import json
